@@ -11,10 +11,24 @@ from ..core.values import Frame, to_term
 MERGE_REF = "hta.utils.utils:merge_kernel_intervals"
 
 
+def _uninterpreted(t) -> set:
+    """names of external calls the evaluator does not interpret (np.*, pd.* it has no model for, builtins it does not know)"""
+    out = set()
+    for s in T.find(t, lambda s: s[0] == "call" and isinstance(s[1], str)):
+        n = s[1]
+        if n.startswith(("np.", "pd.", "numpy.", "pandas.", "math.", "builtins.")) or n in ("map", "filter"):
+            out.add(n)
+    return out
+
+
 def check_term(chk, rule: str, inst: str, where: str, found: Any, accepted: List[Any], why: str = "", key=None) -> bool:
     if T.has_opaque(found):
         return chk.ob(rule, inst, None, where, found=T.show(found)[:400], why="; ".join(T.opaque_reasons(found))[:300], key=key)
     ok = found in accepted
+    if not ok:
+        extra = _uninterpreted(found) - set().union(*[_uninterpreted(a) for a in accepted]) if accepted else _uninterpreted(found)
+        if extra:   # the slot is computed through a library function the evaluator has no model for: not understood, not a violation
+            return chk.ob(rule, inst, None, where, found=T.show(found)[:400], why=f"uses uninterpreted function(s) {sorted(extra)}", key=key)
     return chk.ob(rule, inst, ok, where, found=T.show(found)[:600], accepted=[T.show(a)[:600] for a in accepted], why=why, key=key)
 
 
